@@ -364,12 +364,16 @@ def lem_exp(u, which='exp10'):
         if k == ():
             if which == 'exp10' and c.denominator == 1 and abs(c) < 40:
                 res = res * Rat.const(Fraction(10) ** int(c))
+            elif c < 0:
+                res = res * fn(which, Rat.const(-c)).pow(-1)       # exp(-c) = exp(c)^-1 (canonical sign)
             else:
                 res = res * fn(which, Rat.const(c))
             continue
         e = 1
         if c.denominator == 1:
             e, c = int(c), Fraction(1)
+        elif which == 'exp10' and c.denominator in (5, 10) and abs(c * 10) <= 6:
+            e, c = int(c * 10), Fraction(1, 10)          # dB idiom: exp10(2x/10) = exp10(x/10)^2
         elif c < 0:
             e, c = -1, -c
         # exp(log(x)) = x
